@@ -14,7 +14,7 @@ compares and cuts plain strings: `jidToBareJid` = up to the first '/').
 Since repo commits 73b9a89 (jabber:client elements before authentication end the stream with `not-authorized`)
 and e590a14 (a checker reply is a child of the SASL object that asked for it and dies with it) the model has no
 "unfixed" mode any more; likewise f6325af (user names that are empty or contain '/' or '@' are refused), c3084c3
-(a connection's routing entries are all removed on rebind and disconnect) and b1ba6cb (SASL2 response needs a SASL2
+(a connection's routing entries are all removed on rebind and disconnect) and e17a168 (SASL2 response needs a SASL2
 request in progress; SASL2 abort drops the mechanism).  Server-to-server (QXmppIncomingServer, dialback) is not modelled.  No proofs here.
 -/
 namespace Qx.C16
@@ -348,7 +348,7 @@ def responseStep (cfg : Cfg) (fresh : List Char) (c : Conn) (v2 : Bool) (p : Pay
   match c.sasl with
   | none => disconnect c [.send (.failure v2 (if v2 then .aborted else .none))]
   | some s =>
-    -- a SASL2 response needs a SASL2 <authenticate/> still in progress (repo commit b1ba6cb)
+    -- a SASL2 response needs a SASL2 <authenticate/> still in progress (repo commit e17a168)
     if v2 ∧ c.s2req = none then disconnect c [.send (.failure true .aborted)] else
     let r := s.respond p
     let c1 := { c with sasl := some r.1 }
@@ -431,7 +431,7 @@ def connStep (cfg : Cfg) (fresh : List Char) (c : Conn) (ev : Ev) : CRes :=
   | .auth v2 mech p bind => gate c (authStep cfg c v2 mech p bind)
   | .response v2 p => gate c (responseStep cfg fresh c v2 p)
   | .abort v2 =>
-    -- SASL2 abort drops the mechanism state and, with it, outstanding checker replies (repo commit b1ba6cb)
+    -- SASL2 abort drops the mechanism state and, with it, outstanding checker replies (repo commit e17a168)
     gate c (if v2 then { conn := dropPending { c with s2req := none, sasl := none }, outs := [.send (.failure true .aborted)] } else idle c)
   | .closeStream => gate c (disconnect c [])
   | .bind res => gate c (clientGate c (bindStep fresh c res))
